@@ -43,3 +43,4 @@ CFG = {'level': 'exploration',
                  'no leading comment on retract blocks in generated files (domain restriction, see known findings)']}
 CFG['level_text'] += ' Replace targets include the bare `.` and `..`; rationales include ones beginning with an empty line.'
 CFG['level_text'] += ' Untagged require lines now and then end in a comment holding nothing but blanks.'
+CFG['level_text'] += ' Sessions include refused calls (see C08): whatever a refusal leaves in the typed lists shows in the structure-vs-reparse comparison and to the operations that follow.'
